@@ -3,6 +3,7 @@
    the attribute value, drop leading bytes <= 0x20, delete TAB/LF/CR, lower-case, and test for
    javascript: vbscript: file: and data: other than the five allowed image types. *)
 Require Import GM.model.Base GM.model.Util GM.model.HtmlDecode GM.model.HtmlWriter GM.model.UtilI GM.proofs.Concrete.
+Require Import GM.model.Reader GM.model.Html GM.model.HtmlI GM.model.HtmlSpec GM.proofs.HtmlConcrete.
 Open Scope N_scope.
 
 (* whatever destination the parser stored (raw bytes, with backslash escapes and character
@@ -21,3 +22,11 @@ Example C04_witnesses :
         [106;97;118;97;115;99;114;105;112;116;92;58;97] ]                          (* javascript\:a *)
   = [[]; []; []].
 Proof. vm_compute. reflexivity. Qed.
+
+(* the whole renderer: in the output of safe-mode rendering of any well-formed tree every
+   attribute named href or src has a value that is not browser_dangerous - this is the side
+   condition of AttrOut in the definition of Inert (model/HtmlSpec.v) *)
+Theorem C04_safe_render_urls : forall c src t o, unsafe c = false -> wf_tree src t = true ->
+  RenderHTML c src t = Ok o -> Inert o.
+Proof. exact RenderHTML_safe_inert. Qed.
+Print Assumptions C04_safe_render_urls.
